@@ -639,9 +639,9 @@ def compare(ck, toks, dumps, name='circuit object model (Model/CircObj.lean, Cir
             ck.broken_tie(name, f'step {k} `{toks[k][:80]}`: dumps differ in {names[part] if 0 <= part < 6 else "?"}: model {a[part][:400] if part >= 0 else body[:400]} '
                           f'!= real {b[part][:400] if part >= 0 else d[:400]}', inp={'ops': toks[:k + 1]}); return k
         ck.hist['invOK:' + inv] += 1
-        if new and pre == '0X':
-            ck.broken_tie(name, f'step {k} `{toks[k][:80]}`: substStatic holds but a pin guard of substitute fails (excluded by theorem)',
-                          inp={'ops': toks[:k + 1]}); return k
+        if new and pre in ('0X', '0Y'):
+            ck.broken_tie(name, f'step {k} `{toks[k][:80]}`: the structural precondition holds but the run-time precondition does not '
+                          f'({pre}; excluded by theorems substStatic_pre0 / substStatic_pre)', inp={'ops': toks[:k + 1]}); return k
         if inv != '1':
             if new and not pre.startswith('1'):      # outside the precondition of the theorems: nothing is claimed (the oracle judged the real objects)
                 ck.hist[f'invOK0-outside-pre:{op}:{pre}'] += 1; return None
